@@ -776,3 +776,135 @@ Proof.
   rewrite (array_data_cell (zlen rows) _ k i (transpose_rect _ rows)) by (unfold zlen in *; lia).
   f_equal. symmetry. apply transpose_cell; lia.
 Qed.
+
+(* VLOOKUP never returns a cell outside the table: #N/A, or the cell of
+   column k in a row 1..h *)
+Theorem vlookup_in_table v w rows k r c :
+  rect w rows -> rows <> [] -> 1 <= k <= w ->
+  lookup.f_vlookup v (VTuple rows) (VInt k) r = Ok c ->
+  c = NA \/ exists i, 1 <= i <= zlen rows
+                      /\ c = nth (Z.to_nat (k - 1)) (cells_of (nth (Z.to_nat (i - 1)) rows VNone)) VNone.
+Proof.
+  intros Hr Hne Hk. rewrite (vlookup_is_index_match v w rows k r Hr Hne Hk).
+  destruct (match_ v (VTuple (col_of 0 rows)) (VBool (py_truthy r))) as [m|e] eqn:Em;
+    cbn [bind]; [|discriminate].
+  destruct (match_range v (VTuple (col_of 0 rows)) _ (col_of 0 rows) m eq_refl Em)
+    as [->|(i & -> & Hi)].
+  - cbn [is_int NA]. intros H. injection H as <-. auto.
+  - cbn [is_int]. unfold zlen in Hi. rewrite col_of_length in Hi.
+    rewrite (index_cell w rows i k Hr) by (unfold zlen; lia).
+    rewrite (array_data_cell w rows i k Hr) by (unfold zlen; lia).
+    intros H. injection H as <-. right. exists i. split; [unfold zlen; lia|reflexivity].
+Qed.
+
+(* -------------------------------------- MATCH(v, a, -1): what a hit guarantees *)
+Lemma scan_m1_hit xk l : forall i last m, scan_m1 xk l i last = Ok m ->
+  m = last \/ exists n c k, m = VInt (i + Z.of_nat n) /\ nth_error l n = Some c
+                            /\ in_error_codes c = Ok false /\ abs_key c = Ok k
+                            /\ fst k = fst xk /\ key_lt true k xk = Ok false.
+Proof.
+  induction l as [|c l IH]; intros i last m; cbn [scan_m1].
+  - intros H. injection H as <-. auto.
+  - assert (Hhit : forall k, in_error_codes c = Ok false -> abs_key c = Ok k -> fst k = fst xk ->
+              key_lt true k xk = Ok false ->
+              exists n c' k', VInt i = VInt (i + Z.of_nat n) /\ nth_error (c :: l) n = Some c'
+                /\ in_error_codes c' = Ok false /\ abs_key c' = Ok k'
+                /\ fst k' = fst xk /\ key_lt true k' xk = Ok false).
+    { intros k H1 H2 H3 H4. exists 0%nat, c, k. rewrite Z.add_0_r. cbn [nth_error]. auto 10. }
+    assert (Hrec : forall last', (last' = last \/ exists n c' k', last' = VInt (i + Z.of_nat n)
+                /\ nth_error (c :: l) n = Some c'
+                /\ in_error_codes c' = Ok false /\ abs_key c' = Ok k'
+                /\ fst k' = fst xk /\ key_lt true k' xk = Ok false) ->
+              scan_m1 xk l (i + 1) last' = Ok m ->
+              m = last \/ exists n c' k', m = VInt (i + Z.of_nat n) /\ nth_error (c :: l) n = Some c'
+                /\ in_error_codes c' = Ok false /\ abs_key c' = Ok k'
+                /\ fst k' = fst xk /\ key_lt true k' xk = Ok false).
+    { intros last' Hl H. destruct (IH _ _ _ H) as [->|(n & c' & k' & -> & Hn & Hrest)].
+      - exact Hl.
+      - right. exists (S n), c', k'. split; [f_equal; lia|]. cbn [nth_error]. auto. }
+    destruct (in_error_codes c) as [[|]|e] eqn:Ee; cbn [bind]; try discriminate;
+      try (apply Hrec; auto; fail).
+    destruct (abs_key c) as [k|e] eqn:Ek; cbn [bind]; try discriminate.
+    destruct (Z.eqb_spec (fst k) (fst xk)) as [Et|Et]; cbn [bind]; try (apply Hrec; auto; fail).
+    destruct (key_lt true k xk) as [[|]|e] eqn:El; cbn [bind]; try discriminate.
+    + intros H. injection H as <-. auto.
+    + destruct (key_eq k xk).
+      * intros H. injection H as <-. right. apply (Hhit k); auto.
+      * apply Hrec. right. apply (Hhit k); auto.
+Qed.
+
+(* ---------------------------------------- MATCH(v, a, 1): what a hit guarantees *)
+Lemma backoff_hit t l n : backoff t l = Ok n ->
+  n = O \/ exists pre c post k, l = pre ++ c :: post /\ n = S (length post)
+                                /\ abs_key c = Ok k /\ fst k = t.
+Proof.
+  revert n. induction l as [|c l IH]; intros n; cbn [backoff].
+  - intros H. injection H as <-. auto.
+  - destruct (abs_key c) as [k|e] eqn:Ek; cbn [bind]; [|discriminate].
+    destruct (Z.eqb_spec (fst k) t) as [Et|Et].
+    + intros H. injection H as <-. right. exists [], c, l, k. cbn [app length]. auto.
+    + intros H. destruct (IH _ H) as [->|(pre & c' & post & k' & -> & -> & Hk & Ht)]; [auto|].
+      right. exists (c :: pre), c', post, k'. auto.
+Qed.
+
+Lemma rev_prefix_nth (a : list pyval) r pre c post :
+  rev (firstn r a) = pre ++ c :: post -> nth_error a (length post) = Some c.
+Proof.
+  intros H. apply (f_equal (@rev pyval)) in H. rewrite rev_involutive in H.
+  rewrite rev_app_distr in H. cbn [rev] in H.
+  rewrite <- (firstn_skipn r a). rewrite H.
+  rewrite <- !app_assoc. rewrite nth_error_app2 by (rewrite rev_length; lia).
+  rewrite rev_length, Nat.sub_diag. reflexivity.
+Qed.
+
+Lemma match1_hit x a i : match1 x a = Ok (VInt i) ->
+  exists c k, 1 <= i <= zlen a /\ nth_error a (Z.to_nat (i - 1)) = Some c /\ c <> VNone
+              /\ abs_key c = Ok k /\ fst k = fst (fst x).
+Proof.
+  unfold match1.
+  destruct (bisect_right _ a _ _) as [r|e]; cbn [bind]; [|discriminate].
+  destruct (backoff _ _) as [[|j]|e] eqn:Eb; cbn [bind]; try discriminate.
+  destruct (backoff_hit _ _ _ Eb) as [H0|(pre & c & post & k & Hl & Hn & Hk & Ht)]; [discriminate|].
+  injection Hn as ->. pose proof (rev_prefix_nth a _ pre c post Hl) as Hnth. rewrite Hnth.
+  assert (Hlen : (length post < length a)%nat) by (apply nth_error_Some; congruence).
+  intros H.
+  assert (Hc : c <> VNone /\ i = Z.of_nat (S (length post))).
+  { destruct c; try discriminate; injection H as <-; split; try discriminate; reflexivity. }
+  destruct Hc as [Hc ->]. exists c, k. split; [unfold zlen; lia|].
+  replace (Z.to_nat (Z.of_nat (S (length post)) - 1)) with (length post) by lia.
+  auto.
+Qed.
+
+(* ------------------------------------------------------ examples (non-vacuity) *)
+Definition s_a := VStr [97]. Definition s_B := VStr [66]. Definition s_b := VStr [98].
+Example ex_match1 :
+  match_ (VFloat (5 # 2)) (VTuple [VNone; VInt 1; VInt 2; VInt 3; s_a; VBool true; VNone]) (VInt 1)
+  = Ok (VInt 3).
+Proof. vm_compute. reflexivity. Qed.
+Example ex_match1_text :
+  match_ s_B (VTuple [VInt 1; s_a; s_b; VStr [99]; VBool true]) (VInt 1) = Ok (VInt 3).
+Proof. vm_compute. reflexivity. Qed.
+Example ex_match0_case :
+  match_ s_B (VTuple [VInt 1; s_a; excelutil.c_DIV0; s_b; s_B]) (VInt 0) = Ok (VInt 4).
+Proof. vm_compute. reflexivity. Qed.
+Example ex_match0_wild :
+  match_ (VStr [97; 42]) (VTuple [VInt 1; s_b; VStr [65; 98; 99]]) (VInt 0) = Ok (VInt 3).
+Proof. vm_compute. reflexivity. Qed.
+Example ex_match_m1 :
+  match_ (VInt 2) (VTuple [VInt 5; VInt 3; VInt 1]) (VInt (-1)) = Ok (VInt 2).
+Proof. vm_compute. reflexivity. Qed.
+Example ex_vlookup :
+  lookup.f_vlookup (VInt 2) (VTuple [VTuple [VInt 1; s_a]; VTuple [VInt 2; s_b]; VTuple [VInt 3; s_B]])
+    (VInt 2) (VBool false) = Ok s_b.
+Proof. vm_compute. reflexivity. Qed.
+Example ex_transpose :
+  transpose 2 [VTuple [VInt 1; s_a]; VTuple [VInt 2; s_b]]
+  = [VTuple [VInt 1; VInt 2]; VTuple [s_a; s_b]].
+Proof. reflexivity. Qed.
+
+Lemma index_cell_value w rows i k : rect w rows -> 1 <= i <= zlen rows -> 1 <= k <= w ->
+  index_ (VTuple rows) (VInt i) (VInt k)
+  = Ok (nth (Z.to_nat (k - 1)) (cells_of (nth (Z.to_nat (i - 1)) rows VNone)) VNone).
+Proof.
+  intros Hr Hi Hk. rewrite (index_cell w rows i k Hr Hi Hk). apply (array_data_cell w rows i k Hr Hi Hk).
+Qed.
